@@ -1,6 +1,7 @@
 package main
 
 import (
+	"bytes"
 	"flag"
 	"fmt"
 	"os"
@@ -66,11 +67,6 @@ func run() error {
 	for _, w := range warnings {
 		fmt.Fprintf(os.Stderr, "warning: %v\n", w)
 	}
-	out, err := os.Create(*outputFile)
-	if err != nil {
-		return fmt.Errorf("failed to open output file: %w", err)
-	}
-	defer out.Close()
 	importMode := bebop.ImportGenerationModeSeparate
 	if *combinedImports {
 		importMode = bebop.ImportGenerationModeCombined
@@ -84,8 +80,19 @@ func run() error {
 		PrivateDefinitions:        *privateDefinitions,
 		AlwaysUsePointerReceivers: *pointerReceivers,
 	}
-	if err := bopf.Generate(out, settings); err != nil {
+	// generate into memory first: a schema that fails validation must not
+	// truncate an output file left by an earlier, successful run.
+	generated := new(bytes.Buffer)
+	if err := bopf.Generate(generated, settings); err != nil {
 		return fmt.Errorf("failed to generate file: %w", err)
+	}
+	out, err := os.Create(*outputFile)
+	if err != nil {
+		return fmt.Errorf("failed to open output file: %w", err)
+	}
+	defer out.Close()
+	if _, err := out.Write(generated.Bytes()); err != nil {
+		return fmt.Errorf("failed to write output file: %w", err)
 	}
 	return nil
 }
